@@ -41,7 +41,9 @@ Definition statbuf_eq (a b : statbuf) : bool :=
 Definition sres : Type := (Z * statbuf)%type.
 
 (* state of ctx->timer_handle *)
-Inductive tst := TIdle | TArmed (due seq : Z) | TClosing | TClosed.
+(* TReady: taken off the heap into the ready queue of the uv__run_timers pass that is running
+   (inactive, its callback will run later in this pass) *)
+Inductive tst := TIdle | TArmed (due seq : Z) | TReady | TClosing | TClosed.
 
 Definition timer_active (t : tst) : bool :=
   match t with TArmed _ _ => true | _ => false end.
@@ -76,10 +78,11 @@ Record st := mkSt {
   inflight : list nat;             (* stats queued in the thread pool, FIFO *)
   done : list (nat * sres);        (* completed, waiting in loop->wq *)
   closingq : list citem;           (* loop->closing_handles, head first *)
-  hq : list nat                    (* contexts whose timer is linked in loop->handle_queue *)
+  hq : list nat;                   (* contexts whose timer is linked in loop->handle_queue *)
+  ut : list (nat * Z * Z)          (* the script's own one-shot timers that are armed: id, due, start_id *)
 }.
 
-Definition init (t0 : Z) : st := mkSt t0 t0 0 [] [] [] [] [] [].
+Definition init (t0 : Z) : st := mkSt t0 t0 0 [] [] [] [] [] [] [].
 
 Definition dflt_ctx : ctx := mkCtx 0 0 1 0 0 0 zero_sb TClosed false true.
 Definition dflt_h : hnd := mkH false false true [].
@@ -87,23 +90,25 @@ Definition getc (s : st) (c : nat) : ctx := nth c (cs s) dflt_ctx.
 Definition geth (s : st) (h : nat) : hnd := nth h (hs s) dflt_h.
 
 Definition set_cs (s : st) (l : list ctx) : st :=
-  mkSt (clock s) (now s) (tctr s) (hs s) l (inflight s) (done s) (closingq s) (hq s).
+  mkSt (clock s) (now s) (tctr s) (hs s) l (inflight s) (done s) (closingq s) (hq s) (ut s).
 Definition set_hs (s : st) (l : list hnd) : st :=
-  mkSt (clock s) (now s) (tctr s) l (cs s) (inflight s) (done s) (closingq s) (hq s).
+  mkSt (clock s) (now s) (tctr s) l (cs s) (inflight s) (done s) (closingq s) (hq s) (ut s).
 Definition set_inflight (s : st) (l : list nat) : st :=
-  mkSt (clock s) (now s) (tctr s) (hs s) (cs s) l (done s) (closingq s) (hq s).
+  mkSt (clock s) (now s) (tctr s) (hs s) (cs s) l (done s) (closingq s) (hq s) (ut s).
 Definition set_done (s : st) (l : list (nat * sres)) : st :=
-  mkSt (clock s) (now s) (tctr s) (hs s) (cs s) (inflight s) l (closingq s) (hq s).
+  mkSt (clock s) (now s) (tctr s) (hs s) (cs s) (inflight s) l (closingq s) (hq s) (ut s).
 Definition set_closingq (s : st) (l : list citem) : st :=
-  mkSt (clock s) (now s) (tctr s) (hs s) (cs s) (inflight s) (done s) l (hq s).
+  mkSt (clock s) (now s) (tctr s) (hs s) (cs s) (inflight s) (done s) l (hq s) (ut s).
 Definition set_hq (s : st) (l : list nat) : st :=
-  mkSt (clock s) (now s) (tctr s) (hs s) (cs s) (inflight s) (done s) (closingq s) l.
+  mkSt (clock s) (now s) (tctr s) (hs s) (cs s) (inflight s) (done s) (closingq s) l (ut s).
 Definition set_tctr (s : st) (v : Z) : st :=
-  mkSt (clock s) (now s) v (hs s) (cs s) (inflight s) (done s) (closingq s) (hq s).
+  mkSt (clock s) (now s) v (hs s) (cs s) (inflight s) (done s) (closingq s) (hq s) (ut s).
 Definition set_now (s : st) (v : Z) : st :=
-  mkSt (clock s) v (tctr s) (hs s) (cs s) (inflight s) (done s) (closingq s) (hq s).
+  mkSt (clock s) v (tctr s) (hs s) (cs s) (inflight s) (done s) (closingq s) (hq s) (ut s).
+Definition set_ut (s : st) (l : list (nat * Z * Z)) : st :=
+  mkSt (clock s) (now s) (tctr s) (hs s) (cs s) (inflight s) (done s) (closingq s) (hq s) l.
 Definition set_clock (s : st) (v : Z) : st :=
-  mkSt v (now s) (tctr s) (hs s) (cs s) (inflight s) (done s) (closingq s) (hq s).
+  mkSt v (now s) (tctr s) (hs s) (cs s) (inflight s) (done s) (closingq s) (hq s) (ut s).
 
 Definition upd_c (s : st) (c : nat) (f : ctx -> ctx) : st := set_cs s (upd c f (cs s)).
 Definition upd_h (s : st) (h : nat) (f : hnd -> hnd) : st := set_hs s (upd h f (hs s)).
@@ -149,7 +154,8 @@ Inductive op :=
 | ORelease (res : nat -> sres)   (* the pool runs every queued stat; res path = the answer *)
 | OAdvance (d : Z)               (* the clock moves *)
 | ORun                           (* one loop iteration (uv_run NOWAIT) *)
-| ODrain (res : nat -> sres).    (* run until the loop is not alive, then uv_loop_close *)
+| OTimer (id : nat) (delay : Z)  (* the script starts a one-shot uv_timer of its own (top level only) *)
+| ODrain (res : nat -> sres).    (* the script's timers are closed; run until the loop is not alive, then uv_loop_close *)
 
 Inductive event :=
 | ERet (code : Z)
@@ -157,6 +163,7 @@ Inductive event :=
 | EClosed (h : nat) (g_live : nat)      (* close callback; ghost: contexts of h not freed at that moment *)
 | EStat (path : nat)                                           (* a worker stats [path] *)
 | EIter                                                        (* a loop iteration begins *)
+| EUser (id : nat)                                             (* callback of the script's timer id *)
 | EObs (l : list (bool * bool * option nat))                   (* active, closing, getpath *)
 | EFinal (rc : Z) (live : nat).                                (* uv_loop_close, contexts not freed *)
 
@@ -320,11 +327,11 @@ Fixpoint run_closing (q : list citem) (s : st) (beh : nat -> list op) (cnt : nat
   end.
 
 (* the timers that are due, in (timeout, start_id) order *)
-Definition tkey_lt (a b : Z * Z * nat) : bool :=
+Definition tkey_lt {A} (a b : Z * Z * A) : bool :=
   let '(d1, q1, _) := a in let '(d2, q2, _) := b in
   if d1 <? d2 then true else if d2 <? d1 then false else q1 <? q2.
 
-Fixpoint tinsert (x : Z * Z * nat) (l : list (Z * Z * nat)) : list (Z * Z * nat) :=
+Fixpoint tinsert {A} (x : Z * Z * A) (l : list (Z * Z * A)) : list (Z * Z * A) :=
   match l with
   | [] => [x]
   | y :: l' => if tkey_lt x y then x :: l else y :: tinsert x l'
@@ -341,13 +348,50 @@ Fixpoint due_from (i : nat) (l : list ctx) (nw : Z) : list (Z * Z * nat) :=
       end
   end.
 
-(* timer_cb, fs-poll.c:175-185: the timer has fired (inactive again), a stat is submitted *)
+(* an entry of the ready queue of uv__run_timers *)
+Inductive ritem := RCtx (c : nat) | RUser (id : nat).
+
+Definition due_items (s : st) : list (Z * Z * ritem) :=
+  fold_right (fun u acc => let '(id, d, q) := u in
+                           if d <=? now s then tinsert (d, q, RUser id) acc else acc)
+             (map (fun k => (fst (fst k), snd (fst k), RCtx (snd k))) (due_from 0 (cs s) (now s)))
+             (ut s).
+
+(* first loop of uv__run_timers: every due timer is stopped (off the heap, inactive) and put
+   on the ready queue *)
+Definition collect (s : st) (items : list ritem) : st :=
+  let s1 := fold_left (fun s it => match it with
+                                   | RCtx c => upd_c s c (c_set_timer TReady)
+                                   | RUser _ => s end) items s in
+  match items with
+  | [] => s1
+  | _ => set_ut s1 (filter (fun u => negb (snd (fst u) <=? now s)) (ut s))
+  end.
+
+(* timer_cb, fs-poll.c:178-188: the timer has fired (inactive again), a stat is submitted --
+   whatever the handle's state is by now (the asserts are compiled out with NDEBUG) *)
 Definition timer_fire (s : st) (c : nat) : st :=
   let s1 := upd_c s c (fun x => c_set_inflight true (c_set_start (now s) (c_set_timer TIdle x))) in
   set_inflight s1 (inflight s1 ++ [c]).
 
-Definition run_timers (s : st) : st :=
-  fold_left (fun s k => timer_fire s (snd k)) (due_from 0 (cs s) (now s)) s.
+Section Timers.
+Variable beh : nat -> list op.
+
+(* second loop of uv__run_timers: the callbacks, in order *)
+Fixpoint fire_ready (l : list ritem) (s : st) (cnt : nat) : st * list event * nat :=
+  match l with
+  | [] => (s, [], cnt)
+  | RCtx c :: l' => fire_ready l' (timer_fire s c) cnt
+  | RUser id :: l' =>
+      let '(s1, e1) := apis s (beh cnt) in
+      let '(s2, e2, n2) := fire_ready l' s1 (S cnt) in
+      (s2, EUser id :: e1 ++ e2, n2)
+  end.
+
+Definition run_timers (s : st) (cnt : nat) : st * list event * nat :=
+  let items := map snd (due_items s) in
+  fire_ready items (collect s items) cnt.
+End Timers.
 
 (* one iteration of uv_run with something keeping the loop alive: poll phase
    (uv__io_poll updates loop->time after epoll_pwait, then uv__work_done),
@@ -356,7 +400,8 @@ Definition iteration (s : st) (beh : nat -> list op) (cnt : nat) : st * list eve
   let s := set_now s (clock s) in
   let '(s1, e1, n1) := work_done (done s) (set_done s []) beh cnt in
   let '(s2, e2, n2) := run_closing (closingq s1) (set_closingq s1 []) beh n1 in
-  (run_timers (set_now s2 (clock s2)), e1 ++ e2, n2).
+  let '(s3, e3, n3) := run_timers beh (set_now s2 (clock s2)) n2 in
+  (s3, e1 ++ e2 ++ e3, n3).
 
 (* the worker thread runs every queued stat *)
 Definition release (s : st) (res : nat -> sres) : st * list event :=
@@ -405,8 +450,11 @@ Fixpoint run (s : st) (os : list op) (beh : nat -> list op) (cnt : nat) : st * l
   | ORun :: os' =>
       let '(s1, e1, n1) := iteration s beh cnt in
       let '(s2, e2) := run s1 os' beh n1 in (s2, EIter :: e1 ++ e2)
+  | OTimer id delay :: os' =>
+      (* uv_timer_start(t, cb, delay, 0) at the top level: due = loop->time + delay *)
+      run (set_tctr (set_ut s (ut s ++ [(id, now s + Z.max 0 delay, tctr s)])) (tctr s + 1)) os' beh cnt
   | ODrain res :: os' =>
-      let '(s1, e1, n1) := drain drain_fuel s res beh cnt in
+      let '(s1, e1, n1) := drain drain_fuel (set_ut s []) res beh cnt in
       let '(s2, e2) := run s1 os' beh n1 in
       (s2, e1 ++ EFinal (loop_close s1) (live_ctx s1) :: e2)
   | o :: os' =>
